@@ -20,7 +20,7 @@ def NoPanic (p : PodObj) : Prop :=
   (p.pod.statusReason == reasonDeadlineExceeded && p.pod.activeDeadlineSeconds.isSome) = true →
     p.pod.startTime.isSome = true
 
-theorem podTask_of_noPanic {p : PodObj} (h : NoPanic p) : ∃ t, podTask p = some t := by
+theorem podTask_of_noPanic {now : Time} {p : PodObj} (h : NoPanic p) : ∃ t, podTask now p = some t := by
   unfold podTask Pod.task Pod.taskRef
   have : ∃ fin, p.pod.finishTimestamp = some fin := by
     unfold Pod.finishTimestamp
@@ -45,13 +45,13 @@ theorem podTask_of_noPanic {p : PodObj} (h : NoPanic p) : ∃ t, podTask p = som
   exact ⟨_, rfl⟩
 
 /-- what a pod reports as a task -/
-theorem podTask_fields {p : PodObj} {t : Task} (h : podTask p = some t) :
+theorem podTask_fields {now : Time} {p : PodObj} {t : Task} (h : podTask now p = some t) :
     t.name = p.pod.name ∧ t.deletionTimestamp = p.pod.deletionTimestamp ∧
     t.ref.creationTimestamp = p.pod.creationTimestamp ∧ t.ref.runningTimestamp = p.pod.runningTimestamp ∧
     t.ref.status.result = p.pod.result ∧ t.ref.status.state = p.pod.state ∧ t.ref.deletedStatus = none ∧
     (p.pod.isFinished = false → t.ref.finishTimestamp = none) := by
   unfold podTask Pod.task at h
-  cases hr : p.pod.taskRef with
+  cases hr : p.pod.taskRef now with
   | none => simp [hr] at h
   | some r =>
     simp only [hr, Option.some.injEq] at h
@@ -66,12 +66,13 @@ theorem podTask_fields {p : PodObj} {t : Task} (h : podTask p = some t) :
       intro hnf
       unfold Pod.finishTimestamp at hf
       simp only [hnf, Bool.not_false, ↓reduceIte, Option.some.injEq] at hf
-      exact hf.symm
+      subst hf
+      exact Pod.recordedFinish_none now p.pod
 
-theorem podTask_finished {p : PodObj} {t : Task} (hc : p.pod.creationTimestamp.isSome = true)
-    (h : podTask p = some t) (hf : p.pod.isFinished = true) : t.ref.finishTimestamp.isSome = true := by
+theorem podTask_finished {now : Time} {p : PodObj} {t : Task} (hc : p.pod.creationTimestamp.isSome = true)
+    (h : podTask now p = some t) (hf : p.pod.isFinished = true) : t.ref.finishTimestamp.isSome = true := by
   unfold podTask Pod.task at h
-  cases hr : p.pod.taskRef with
+  cases hr : p.pod.taskRef now with
   | none => simp [hr] at h
   | some r =>
     simp only [hr, Option.some.injEq] at h
@@ -82,7 +83,8 @@ theorem podTask_finished {p : PodObj} {t : Task} (hc : p.pod.creationTimestamp.i
     | some fin =>
       simp only [hfin, Option.some.injEq] at hr
       subst hr
-      show fin.isSome = true
+      show (Pod.recordedFinish now p.pod fin).isSome = true
+      rw [Pod.recordedFinish_isSome]
       unfold Pod.finishTimestamp at hfin
       simp only [hf, Bool.not_true, Bool.false_eq_true, ↓reduceIte] at hfin
       split at hfin
@@ -94,6 +96,49 @@ theorem podTask_finished {p : PodObj} {t : Task} (hc : p.pod.creationTimestamp.i
         · split at hfin
           · simp only [Option.some.injEq] at hfin; subst hfin; rfl
           · simp only [Option.some.injEq] at hfin; subst hfin; exact hc
+
+/-- the finish time of a pod's task: what `GetFinishTimestamp` gives, as `GetTaskRef` records it -/
+theorem podTask_finish {now : Time} {p : PodObj} {t : Task} (h : podTask now p = some t) :
+    ∃ fin, p.pod.finishTimestamp = some fin ∧ t.ref.finishTimestamp = p.pod.recordedFinish now fin := by
+  unfold podTask Pod.task at h
+  cases hr : p.pod.taskRef now with
+  | none => simp [hr] at h
+  | some r =>
+    simp only [hr, Option.some.injEq] at h
+    subst h
+    unfold Pod.taskRef at hr
+    cases hf : p.pod.finishTimestamp with
+    | none => simp [hf] at hr
+    | some fin =>
+      simp only [hf, Option.some.injEq] at hr
+      subst hr
+      exact ⟨fin, rfl, rfl⟩
+
+/-- a lower bound of the clock and of what the pod reports bounds the recorded finish time -/
+theorem podTask_finish_lb {now : Time} {p : PodObj} {t : Task} {F0 : Int} (h : podTask now p = some t)
+    (hn : F0 ≤ now) (hp : ∀ f, p.pod.finishTimestamp = some (some f) → F0 ≤ f) :
+    ∀ f, t.ref.finishTimestamp = some f → F0 ≤ f := by
+  intro f hf
+  obtain ⟨fin, h1, h2⟩ := podTask_finish h
+  rw [h2] at hf
+  rcases Pod.recordedFinish_some hf with e | e
+  · exact hp f (by rw [h1, e])
+  · rw [e]; exact hn
+
+/-- two readings of one pod at different clocks (`TaskSim`): a finished pod that does not tell when it
+finished is recorded with the clock of the reading -/
+theorem podTask_sim (c c' : Time) (p : PodObj) : OptSim (podTask c p) (podTask c' p) := by
+  unfold podTask Pod.task Pod.taskRef
+  cases hf : p.pod.finishTimestamp with
+  | none => trivial
+  | some fin =>
+    simp only
+    unfold OptSim TaskSim Pod.recordedFinish
+    by_cases hcnd : (fin.isSome && !p.pod.hasFinishTimestamp) = true
+    · simp only [hcnd, if_true]
+      exact Or.inr ⟨rfl, c', rfl⟩
+    · simp only [hcnd, if_false]
+      exact Or.inl rfl
 
 /-! ### fresh states -/
 
@@ -115,14 +160,22 @@ structure PodsOK (jo : JobObj) (s : Sys) : Prop where
   nodup : (podNames s.pods).Nodup
 
 /-- the task of that name on the server -/
-def lookTask (s : Sys) (n : String) : Option Task := (findPod s.pods n).bind podTask
+def lookTask (s : Sys) (n : String) : Option Task := (findPod s.pods n).bind (podTask s.clock)
 
 theorem lookTask_some {s : Sys} {n : String} {t : Task} (h : lookTask s n = some t) :
-    ∃ p, findPod s.pods n = some p ∧ podTask p = some t := by
+    ∃ p, findPod s.pods n = some p ∧ podTask s.clock p = some t := by
   unfold lookTask at h
   cases hp : findPod s.pods n with
   | none => simp [hp] at h
   | some p => exact ⟨p, rfl, by simpa [hp] using h⟩
+
+/-- the lookups of two states with the same pods, whatever their clocks -/
+theorem lookTask_sim {s s' : Sys} (hp : s'.pods = s.pods) (n : String) : OptSim (lookTask s n) (lookTask s' n) := by
+  unfold lookTask
+  rw [hp]
+  cases findPod s.pods n with
+  | none => trivial
+  | some p => exact podTask_sim s.clock s'.clock p
 
 theorem lookTask_name {s : Sys} {n : String} {t : Task} (h : lookTask s n = some t) : t.name = n := by
   obtain ⟨p, hp, ht⟩ := lookTask_some h
@@ -141,7 +194,7 @@ theorem getTaskForRef_fresh {jo : JobObj} {s : Sys} (hc : s.podCache = s.pods)
   | some p =>
     have ho := hown p (findPod_some hp).1
     simp only [ho, decide_true, Bool.not_true, Bool.false_eq_true, ↓reduceIte, Option.bind_some]
-    cases ht : podTask p with
+    cases ht : podTask s.clock p with
     | none => rfl
     | some t =>
       simp only
